@@ -321,3 +321,36 @@ def r6_loop_wiring(ctx):
 
 
 RULES.append(r6_loop_wiring)
+
+
+def r7_migration_rows(ctx):
+    """C03.R7: migrating a host to a component gives every worker of the host (idle or busy) a distance row in that component —
+    a worker that becomes idle later is looked up there."""
+    repo = ctx.repo
+    fi = repo.func("cascade.scheduler.assign.migrate_to_component")
+    ctx.analysed(fi.qual)
+    H = Atom("H1")
+    W1, W2 = worker(H, "w0"), worker(H, "w1")
+    comp = Obj(f"{CORE}.ComponentSchedule", {"worker2task_distance": {}, "worker2task_values": set(), "core": Obj(f"{CORE}.ComponentCore", {"depth": 3})}, name="comp1")
+    env = {"state.components": [Obj(f"{CORE}.ComponentSchedule", {}, name="comp0"), comp], "state.host2component": {H: 0},
+           "state.host2workers": {H: [W1, W2]}, "state.idle_workers": {W1}}
+    paths = Interp(repo).explore(fi, env=env, args={"host": H, "component_id": 1})
+    ctx.evals(len(paths))
+    for p in paths:
+        if p.exit[0] != "return":
+            ctx.violation("C03.R7", fi.qual, loc(fi), "migration completes", f"migrate_to_component ends with {p.exit[0]} {vkey(p.exit[1])[:60]}")
+            continue
+        c = p.heap["state.components"][1]
+        rows = sorted(getattr(w, "name", vkey(w)) for w in c.fields["worker2task_distance"].keys())
+        h2c = p.heap["state.host2component"].get(H)
+        if rows != sorted([W1.name, W2.name]) or h2c != 1:
+            ctx.violation("C03.R7", fi.qual, loc(fi), "distance rows for every worker of the migrated host",
+                          f"host with an idle and a busy worker migrates to component 1: distance rows for {rows}, host2component={vkey(h2c)}; every worker of the host needs a row "
+                          f"(the busy one is looked up there when it becomes idle: KeyError in the controller otherwise)")
+        else:
+            ctx.ok("C03.R7", loc(fi), "every worker of the migrated host (idle or busy) gets a distance row; host2component updated")
+
+
+from .C04 import r6_fetch_queue  # noqa: E402  (a requested output that is never fetched keeps the controller waiting for ever)
+
+RULES += [r7_migration_rows, r6_fetch_queue]
